@@ -24,6 +24,7 @@ import (
 	"strings"
 	"sync"
 	"sync/atomic"
+	"syscall"
 	"time"
 
 	"github.com/anishathalye/porcupine"
@@ -94,6 +95,9 @@ type c16env struct {
 	closed  bool
 	specDir string
 	sess    *c16session // if set, operations are requests over the service's line protocol
+	// commitFaults: store faults are injected at the commit of a transaction only
+	commitFaults      bool
+	brokenFd, savedFd int
 }
 
 func newC16Env(workdir string, tag string) (*c16env, error) {
@@ -116,6 +120,7 @@ func newC16Env(workdir string, tag string) (*c16env, error) {
 }
 
 func (e *c16env) close() {
+	e.mendCommit()
 	if e.sess != nil {
 		e.sess.w.Close()
 	}
@@ -128,8 +133,61 @@ func (e *c16env) close() {
 	os.RemoveAll(e.dir)
 }
 
+// breakCommit makes the store fail at one point only - when a transaction is committed:
+// the descriptor of the database file is replaced by a read-only one, so that beginning a
+// transaction, reading and putting all work (they go through the memory map and the
+// transaction's own pages) and the write at commit fails.  mendCommit puts it back.
+func (e *c16env) breakCommit() bool {
+	path := filepath.Join(e.dir, "crew.db")
+	ents, err := os.ReadDir("/proc/self/fd")
+	if err != nil {
+		return false
+	}
+	fd := -1
+	for _, ent := range ents {
+		if l, err := os.Readlink("/proc/self/fd/" + ent.Name()); err == nil && l == path {
+			fmt.Sscan(ent.Name(), &fd)
+		}
+	}
+	if fd < 0 {
+		return false
+	}
+	ro, err := os.Open(path)
+	if err != nil {
+		return false
+	}
+	saved, err := syscall.Dup(fd)
+	if err != nil {
+		ro.Close()
+		return false
+	}
+	if err := syscall.Dup3(int(ro.Fd()), fd, 0); err != nil {
+		syscall.Close(saved)
+		ro.Close()
+		return false
+	}
+	ro.Close()
+	e.brokenFd, e.savedFd = fd, saved
+	return true
+}
+
+func (e *c16env) mendCommit() {
+	if e.savedFd > 0 {
+		syscall.Dup3(e.savedFd, e.brokenFd, 0)
+		syscall.Close(e.savedFd)
+		e.savedFd, e.brokenFd = 0, 0
+	}
+}
+
 // failStore makes every write fail (the database is closed); healStore reopens it.
 func (e *c16env) failStore() {
+	if e.commitFaults {
+		if e.savedFd == 0 && !e.breakCommit() {
+			e.commitFaults = false // not possible here: fall back to closing the database
+		} else {
+			return
+		}
+	}
 	if !e.closed {
 		e.s.store.db.Close()
 		e.closed = true
@@ -137,6 +195,7 @@ func (e *c16env) failStore() {
 }
 
 func (e *c16env) healStore() error {
+	e.mendCommit()
 	if e.closed {
 		if err := e.s.store.Open(e.ctx); err != nil {
 			return err
@@ -490,6 +549,7 @@ func c16SequentialMid(cfg fw.Config, rec *fw.Rec, seqIdx int, seq []c16op, fi, f
 		return false
 	}
 	defer env.close()
+	env.commitFaults = seqIdx%4 == 2 && midK < 0
 	viaListener := seqIdx%2 == 1
 	if viaListener {
 		env.openSession()
@@ -585,6 +645,9 @@ func c16SequentialMid(cfg fw.Config, rec *fw.Rec, seqIdx int, seq []c16op, fi, f
 				return false
 			}
 			rec.Bucket("failed_write_left_memory_unchanged")
+			if env.commitFaults && env.savedFd != 0 && opErr != nil {
+				rec.Bucket("failed_commit_left_memory_unchanged")
+			}
 			if (o.Kind == "add" || o.Kind == "rem") && opErr == nil && !(o.Kind == "add" && before[o.Id] != "") {
 				rec.Bucket("failed_write_not_reported_to_caller")
 			}
@@ -851,8 +914,8 @@ func c16Concurrent(cfg fw.Config, rec *fw.Rec, idx int, interleavings map[string
 
 func init() {
 	verifRegistry["C16/mcrew"] = func(cfg fw.Config, rec *fw.Rec) {
-		rec.Rule = "sequential (every second sequence as JSON request lines through Service.Listener, the per-connection loop of the TCP / WebSocket services; the others as direct Service calls): operation sequences of length 2-8 over {add, rem, process-to, process-all, read-crew, retry-the-previous-request-verbatim, the same requests under an already cancelled context} on ids {m1,m2,m3}; for every 0 <= i < j <= n the bolt store is closed for operations i..j-1 (plus the fault-free run); after each operation with a healthy store memory must equal the store, an operation whose write failed must leave memory as it was, after recovery memory must equal the store; a 'poison' request to every machine leaves one machine with a state the store cannot serialise (100/0), so the request's write fails although the store is healthy: memory must stay as it was for every machine and equal the store - also when the failing machine's action emitted a message to another machine ('poisonrelay'); mid-operation faults: the hook counts an operation's store write calls and closes the database at the 1st/2nd/3rd call of that operation (the observed maximum of write calls per operation is reported); concurrent: 4-8 clients x 6-15 requests on 2-3 ids with every store write delayed 0-2 ms through the verifPoint hook: final memory == store, no two process results from one machine state, per-machine history linearizable (porcupine) w.r.t. a sequential service model; non-trivial = sequence run under a fault window / concurrent history; distinct by (sequence, window) / history"
-		rec.Required = []string{"healthy_op_memory_equals_store", "failed_write_left_memory_unchanged", "recovered_store_agrees", "concurrent_histories", "histories_linearizable_per_machine", "fault_windows", "requests_over_the_line_protocol", "request_under_cancelled_context_memory_equals_store", "unserialisable_state_left_memory_unchanged", "unserialisable_state_in_multi_machine_request", "failed_request_that_emitted_left_the_others_alone", "mid_operation_fault_injected"}
+		rec.Rule = "sequential (every second sequence as JSON request lines through Service.Listener, the per-connection loop of the TCP / WebSocket services; the others as direct Service calls): operation sequences of length 2-8 over {add, rem, process-to, process-all, read-crew, retry-the-previous-request-verbatim, the same requests under an already cancelled context} on ids {m1,m2,m3}; for every 0 <= i < j <= n the bolt store is closed for operations i..j-1 (plus the fault-free run); for every fourth sequence the fault is instead injected at the commit of a transaction only (the database file's descriptor is swapped for a read-only one: begin, get and put work, commit fails); after each operation with a healthy store memory must equal the store, an operation whose write failed must leave memory as it was, after recovery memory must equal the store; a 'poison' request to every machine leaves one machine with a state the store cannot serialise (100/0), so the request's write fails although the store is healthy: memory must stay as it was for every machine and equal the store - also when the failing machine's action emitted a message to another machine ('poisonrelay'); mid-operation faults: the hook counts an operation's store write calls and closes the database at the 1st/2nd/3rd call of that operation (the observed maximum of write calls per operation is reported); concurrent: 4-8 clients x 6-15 requests on 2-3 ids with every store write delayed 0-2 ms through the verifPoint hook: final memory == store, no two process results from one machine state, per-machine history linearizable (porcupine) w.r.t. a sequential service model; non-trivial = sequence run under a fault window / concurrent history; distinct by (sequence, window) / history"
+		rec.Required = []string{"healthy_op_memory_equals_store", "failed_write_left_memory_unchanged", "recovered_store_agrees", "concurrent_histories", "histories_linearizable_per_machine", "fault_windows", "failed_commit_left_memory_unchanged", "requests_over_the_line_protocol", "request_under_cancelled_context_memory_equals_store", "unserialisable_state_left_memory_unchanged", "unserialisable_state_in_multi_machine_request", "failed_request_that_emitted_left_the_others_alone", "mid_operation_fault_injected"}
 		rec.Assume = []string{"store faults are injected by closing the bolt database (every write and read fails until it is reopened); commits do not fsync (NoSync) because durability is not monitored", "machines are counters with a unique incarnation tag, so every state of every incarnation is distinguishable", "porcupine timeout 60 s = inconclusive"}
 		// sequential fault enumeration
 		nseq := cfg.Pick(40, 800)
